@@ -74,6 +74,10 @@ def strategy(tier):
 
 # ---------------------------------------------------------------- primitives
 
+class KillNow(BaseException):
+    pass
+
+
 class _Prims(object):
     """Counts primitive storage writes of pysyncobj.journal; optionally exits the
     process at a chosen one (only ever armed inside a forked child)."""
@@ -83,6 +87,13 @@ class _Prims(object):
         self.kill_at = None      # (index, mode) mode in after/torn
         self.torn_frac = 0.5
         self.installed = False
+        self.inproc = False      # True: raise KillNow instead of exiting the process
+
+    def die(self):
+        if self.inproc:
+            self.kill_at = None
+            raise KillNow()
+        os._exit(0)
 
     def install(self):
         if self.installed:
@@ -103,10 +114,10 @@ class _Prims(object):
                     os._exit(3)
                 # restore the tail to what a cut memcpy would have left: unknown old bytes -> zero fill
                 orig_write(rf, offset + cut, b'\xee' * (len(values) - cut))
-                os._exit(0)
+                prims.die()
             orig_write(rf, offset, values)
             if prims.kill_at is not None and prims.kill_at[0] == i:
-                os._exit(0)
+                prims.die()
         J.ResizableFile.write = write
         self._orig_write = orig_write
 
@@ -119,6 +130,8 @@ class _Prims(object):
             def write(self, data):
                 i = len(prims.log)
                 prims.log.append(('fwrite', len(data)))
+                if prims.kill_at is not None and prims.kill_at[0] == i and prims.inproc:
+                    prims.die()     # in-process kill: the data would only have reached the Python buffer, which a SIGKILL loses
                 r = self._f.write(data)
                 if prims.kill_at is not None and prims.kill_at[0] == i:
                     os._exit(0)     # unflushed Python buffer is lost, as with SIGKILL
@@ -136,7 +149,7 @@ class _Prims(object):
                 i = len(prims.log)
                 prims.log.append(('fclose', 0))
                 if prims.kill_at is not None and prims.kill_at[0] == i:
-                    os._exit(0)
+                    prims.die()
                 return r
 
         def popen(path, mode='r', *a, **kw):
@@ -147,7 +160,7 @@ class _Prims(object):
                         i = len(prims.log)
                         prims.log.append(('fopen-trunc', 0))
                         if prims.kill_at is not None and prims.kill_at[0] == i:
-                            os._exit(0)
+                            prims.die()
                     return FileProxy(f)
             return f
         J.open = popen
@@ -162,7 +175,7 @@ class _Prims(object):
                 prims.log.append(('move', 0))
                 r = shutil.move(a, b)
                 if prims.kill_at is not None and prims.kill_at[0] == i:
-                    os._exit(0)
+                    prims.die()
                 return r
         J.shutil = ShutilProxy()
 
@@ -176,7 +189,7 @@ class _Prims(object):
                 prims.log.append(('move', 0))
                 r = os.rename(a, b)
                 if prims.kill_at is not None and prims.kill_at[0] == i:
-                    os._exit(0)
+                    prims.die()
                 return r
 
             @staticmethod
@@ -185,7 +198,7 @@ class _Prims(object):
                 prims.log.append(('move', 0))
                 r = os.replace(a, b)
                 if prims.kill_at is not None and prims.kill_at[0] == i:
-                    os._exit(0)
+                    prims.die()
                 return r
         J.os = OsProxy()
         self.installed = True
@@ -363,23 +376,19 @@ def _kill_enumerate(ctx, cop, before, stored_before, commit_set_after, nprims, p
         shutil.rmtree(work, ignore_errors=True)
         shutil.copytree(src, work)
         wpath = os.path.join(work, 'journal.bin')
-        pid = os.fork()
-        if pid == 0:
-            try:
-                PRIMS.log = []
-                j = PRIMS.J.createJournal(wpath)
-                PRIMS.log = []
-                PRIMS.kill_at = (p, mode) if p >= 0 else None
-                if p < 0:
-                    os._exit(0)
-                if ctx.commit_mem_before is not None:
-                    j.setRaftCommitIndex(ctx.commit_mem_before)
-                _apply_real(j, cop, PRIMS.J)
-                os._exit(7)     # kill point not reached
-            except BaseException:
-                os._exit(9)
-        _, status = os.waitpid(pid, 0)
-        code = os.WEXITSTATUS(status) if os.WIFEXITED(status) else -1
+        code = _inproc_trial(wpath, cop, ctx.commit_mem_before, p, mode)
+        if ctx.kill_trials % 6 == 0 and code in (0, 7):
+            # cross-validation with a real fork + _exit on a second copy: same bytes must result
+            work2 = os.path.join(ctx.dir, 'kill2')
+            shutil.rmtree(work2, ignore_errors=True)
+            shutil.copytree(src, work2)
+            code2 = _killer_trial(os.path.join(work2, 'journal.bin'), cop, ctx.commit_mem_before, p, mode)
+            same = code2 == code and _dir_bytes(work) == _dir_bytes(work2)
+            shutil.rmtree(work2, ignore_errors=True)
+            ctx.fork_trials = getattr(ctx, 'fork_trials', 0) + 1
+            if not same:
+                out.append(('harness', 'in-process kill and real fork/_exit kill disagree for %r point %d mode %s (codes %r %r)' % (cop, p, mode, code, code2)))
+                continue
         ctx.kill_trials += 1
         if code == 9:
             continue        # the op itself raised in the child: reported by oracle 1
@@ -413,6 +422,105 @@ def _kill_enumerate(ctx, cop, before, stored_before, commit_set_after, nprims, p
     shutil.rmtree(os.path.join(ctx.dir, 'kill'), ignore_errors=True)
 
 
+def _dir_bytes(d):
+    out = {}
+    for name in sorted(os.listdir(d)):
+        with open(os.path.join(d, name), 'rb') as f:
+            out[name] = f.read()
+    return out
+
+
+def _inproc_trial(wpath, cop, commit_mem_before, p, mode):
+    if p < 0:
+        return 0
+    saved = list(PRIMS.log)
+    j = None
+    try:
+        PRIMS.log = []
+        PRIMS.kill_at = None
+        j = PRIMS.J.createJournal(wpath)
+        PRIMS.log = []
+        PRIMS.kill_at = (p, mode)
+        PRIMS.inproc = True
+        if commit_mem_before is not None:
+            j.setRaftCommitIndex(commit_mem_before)
+        _apply_real(j, cop, PRIMS.J)
+        return 7
+    except KillNow:
+        return 0
+    except BaseException:
+        return 9
+    finally:
+        PRIMS.kill_at = None
+        PRIMS.inproc = False
+        PRIMS.log = saved
+        if j is not None:
+            try:
+                j._destroy()
+            except BaseException:
+                pass
+
+
+_KILLER = [None]
+
+
+def _killer():
+    """Small long-lived helper process (this module run as a script) that performs each
+    kill trial in a forked child of its own: forking the big Hypothesis process is slow."""
+    import subprocess
+    k = _KILLER[0]
+    if k is None or k[0] != os.getpid() or k[1].poll() is not None:
+        envv = dict(os.environ, PYTHONHASHSEED='0')
+        proc = subprocess.Popen([sys.executable, '-c',
+                                 'import sys; sys.path.insert(0, %r); from pvf import env; env.bootstrap(); from pvf.props import c08; c08._killer_loop()' % env.VERIF],
+                                stdin=subprocess.PIPE, stdout=subprocess.PIPE, env=envv)
+        import atexit
+        atexit.register(lambda proc=proc: (proc.stdin.close(), proc.wait()) if proc.poll() is None else None)
+        _KILLER[0] = k = (os.getpid(), proc)
+    return k[1]
+
+
+def _killer_trial(wpath, cop, commit_mem_before, p, mode):
+    import json
+    proc = _killer()
+    req = {'path': wpath, 'cop': cop, 'cm': commit_mem_before, 'p': p, 'mode': mode}
+    proc.stdin.write((json.dumps(req) + '\n').encode())
+    proc.stdin.flush()
+    line = proc.stdout.readline()
+    if not line:
+        raise runner.HarnessError('kill helper died')
+    return int(line)
+
+
+def _killer_loop():
+    import json
+    PRIMS.install()
+    out = sys.stdout
+    for line in sys.stdin:
+        req = json.loads(line)
+        pid = os.fork()
+        if pid == 0:
+            try:
+                p, mode, cop = req['p'], req['mode'], req['cop']
+                if p < 0:
+                    os._exit(0)
+                PRIMS.log = []
+                PRIMS.kill_at = None
+                j = PRIMS.J.createJournal(req['path'])
+                PRIMS.log = []
+                PRIMS.kill_at = (p, mode)
+                if req['cm'] is not None:
+                    j.setRaftCommitIndex(req['cm'])
+                _apply_real(j, cop, PRIMS.J)
+                os._exit(7)     # kill point not reached
+            except BaseException:
+                os._exit(9)
+        _, status = os.waitpid(pid, 0)
+        code = os.WEXITSTATUS(status) if os.WIFEXITED(status) else -1
+        out.write('%d\n' % code)
+        out.flush()
+
+
 def _short(cop):
     return cop
 
@@ -426,11 +534,20 @@ def run_case(case):
     trace = []
     killed = []
     try:
-        ctx.open()
+        try:
+            ctx.open()
+        except Exception as e:
+            viol.append(('exception:open:%s' % type(e).__name__, 'opening a fresh journal raised %r' % (e,)))
         for n, op in enumerate(case['ops']):
+            if viol:
+                break
             if op[0] == 'reopen':
                 ctx.close()
-                ctx.open()
+                try:
+                    ctx.open()
+                except Exception as e:
+                    viol.append(('exception:reopen:%s' % type(e).__name__, 'reopen after ops %r raised %r' % (trace[-5:], e)))
+                    break
                 trace.append(['reopen'])
                 classes.add('reopen')
                 if ctx.drops:
@@ -446,7 +563,7 @@ def run_case(case):
                     break
                 continue
             cop = _resolve(ctx, op)
-            do_kill = bool(op[-1]) and op[0] in ('add', 'from', 'to', 'clear', 'commit')
+            do_kill = bool(op[-1]) and op[0] in ('add', 'from', 'to', 'clear', 'commit') and os.path.getsize(ctx.path) <= 65536
             if do_kill and cop[0] == 'commit':
                 cop = ['commit_store', cop[1]]
             before = list(ctx.model)
@@ -504,6 +621,7 @@ def run_case(case):
     r = Result(nontrivial=nontrivial, classes=sorted(classes), violation=violation,
                sample={'ops': trace[:40], 'killed_ops': killed})
     r.kill_points = ctx.kill_points
+    r.fork_trials = getattr(ctx, 'fork_trials', 0)
     r.kill_trials = ctx.kill_trials
     r.all_violations = viol
     return r
@@ -516,6 +634,7 @@ def shard(seed, n, tier, shrink):
         res = run_case(case)
         stats.sets['kill_points'] |= set('%s/%d/%s' % k for k in res.kill_points)
         stats.extra['kill_trials'] += res.kill_trials
+        stats.extra['kill_trials_cross_validated_by_real_fork'] += res.fork_trials
         # known findings hit besides the reported violation are counted too
         from .. import findings
         for s, d in res.all_violations:
@@ -531,7 +650,7 @@ def shard(seed, n, tier, shrink):
 def main(tier, seed, cases=None):
     t0 = time.time()
     if tier == 'quick':
-        shards, n = 4, cases or 400
+        shards, n = 6, cases or 250
     else:
         shards, n = 16, cases or 5000
     kws = [dict(seed=seed * 1000 + i, n=n, tier=tier, shrink=True) for i in range(shards)]
